@@ -194,6 +194,10 @@ fn main() {
                     }
                 }
             }
+            "--loader-worker" => {
+                vengine::checks::c19::loader_worker(&args[i + 1], args[i + 2].parse().unwrap());
+                return;
+            }
             "--hl" => {
                 // debug: vcheck --hl <mini|mini-nolocals|arith|tmpl|tmpl-combined> <file>
                 let bytes = std::fs::read(&args[i + 2]).unwrap();
